@@ -678,7 +678,15 @@ def check_C18(res, tier, seed):
         jobs += [(thr, c.lib, sc, k, [s1, s2]) for k in ks] + [(thr, c.lib, sc, 0, [s1, s2])] * (3 if tier == 'quick' else 40)
     with multiprocessing.Pool(16) as pool:
         results = pool.map(kthread.thread_case, jobs, chunksize=4)
+    # free-running read-only stress: 8 threads, no schedule control (run a few at a time: each run is 8 busy threads)
+    nstress, iters = (6, 400) if tier == 'quick' else (60, 1500)
+    with multiprocessing.Pool(2) as pool:
+        stress = pool.map(kthread.stress_case, [(thr, c.lib, 8, iters, i) for i in range(nstress)])
     byclass, reported = {}, 0
+    sbad = [x for x in stress if x['finding']]
+    for x in sbad[:2]:
+        res.violation('C18: ' + x['finding'], {'kind': 'thread-stress', 'threads': 8, 'iterations': iters, 'observed': x['raw'],
+                                               'how': 'harness/thrdrv <libsofthsm2.so> stress 8 %d with SOFTHSM2_CONF pointing at an empty token directory (repeat: the failure depends on the schedule)' % iters})
     for r in results:
         for msg in r['findings']:
             key = None
@@ -704,9 +712,11 @@ def check_C18(res, tier, seed):
                 res.violation('C18: ' + msg, {'kind': 'thread-schedule', 'scenario': r['scenario'], 'stop_A_before_LockMutex': r['k'], 'observed': r['raw'],
                                               'how': 'harness/thrdrv <libsofthsm2.so> %s %d with SOFTHSM2_CONF pointing at an empty token directory' % (r['scenario'], r['k'])})
     res.coverage.update({'evaluations': len(jobs), 'distinct_nontrivial': len(jobs),
-                         'rule': '14 two-thread scenarios (search / search on unregistered and registered token objects, private reads, create / create, create / search, session-object create / search, destroy / read, set / read, logout / private read, open / close session, HMAC / HMAC with one key, generate / generate, search / create, read / close): locking enabled with application mutex callbacks; thread A is stopped before each of its LockMutex calls in turn (quick: first 16, last 16 and 16 random ones per scenario) while thread B runs its whole call; the outcome (both return codes and outputs, final object set, handle uniqueness) must equal that of A;B or of B;A run without concurrency; plus free-running repetitions; a run that does not finish in 25 s is a deadlock',
+                         'rule': '14 two-thread scenarios (search / search on unregistered and registered token objects, private reads, create / create, create / search, session-object create / search, destroy / read, set / read, logout / private read, open / close session, HMAC / HMAC with one key, generate / generate, search / create, read / close): locking enabled with application mutex callbacks; thread A is stopped before each of its LockMutex calls in turn (quick: first 16, last 16 and 16 random ones per scenario) while thread B runs its whole call; the outcome (both return codes and outputs, final object set, handle uniqueness) must equal that of A;B or of B;A run without concurrency; plus free-running repetitions; a run that does not finish in 25 s is a deadlock; plus stress runs of 8 free-running threads that only read unchanging objects (answers must equal the sequential ones; a signal is a crash)',
+                         'stress': {'runs': nstress, 'threads': 8, 'iterations_per_thread': iters, 'calls': sum(x.get('calls', 0) for x in stress), 'failed_runs': len(sbad),
+                                    'what': 'private and public CKA_VALUE reads, search, AES-ECB encryption under a private token key; each thread its own session; answers compared with a sequential run'},
                          'scenarios': info, 'findings_by_class': byclass, 'traces_validated_against_impl': len(jobs),
-                         'not_covered': 'more than two threads, more than one stop point per call, OS locking (CKF_OS_LOCKING_OK) instead of callbacks, data races without a visible effect (no ThreadSanitizer run), SQLite backend'})
+                         'not_covered': 'more than two threads under schedule control, more than one stop point per call, OS locking (CKF_OS_LOCKING_OK) instead of callbacks, data races without a visible effect (no ThreadSanitizer run), SQLite backend'})
     finish_proof_side(c, res, 'C18')
 
 
@@ -813,6 +823,11 @@ def replay(pid, path):
         out = kthread.thread_case((c.harness['thrdrv'], c.lib, r['scenario'], int(r['stop_A_before_LockMutex']), [s1, s2]))
         print('  observed now: %s' % out['raw'])
         failed = bool(out['findings'])
+    elif kind == 'thread-stress':
+        outs = [kthread.stress_case((c.harness['thrdrv'], c.lib, int(r['threads']), int(r['iterations']), i)) for i in range(10)]
+        bad = [o for o in outs if o['finding']]
+        print('  10 stress runs now: %d failed%s' % (len(bad), (': ' + bad[0]['finding'][:200]) if bad else ''))
+        failed = bool(bad)
     elif r.get('ops'):
         ops = [o.split(':', 1)[1] if o[:2] in ('A:', 'B:') else o for o in r['ops']]
         with_model = kind == 'correspondence' and r.get('stream', '').startswith('K-api')
